@@ -168,6 +168,10 @@ def run(index: RepoIndex, rep) -> None:
              'deepcopy, default copy protocol (or a __reduce__ that rebuilds every constructor '
              'argument)', floor=15)
     deep_copy_rule(index, rep, 'C09.R5')
+    rep.rule('C09.R6', 'the cell pick-and-drop exchanges with is the cell one step ahead of the '
+             'agent for every heading (Agent.front, C18.R5)', floor=4)
+    from .c18 import front_rule
+    front_rule(index, rep, 'C09.R6')
     effect_table(index, rep, 'C09.R1', {'cell', 'held', 'swap'})
     c10.box_rule(index, rep, 'C09.R1')
     exchange(index, rep, 'C09.R2')
